@@ -57,6 +57,7 @@ type Sim struct {
 	MaxSteps int
 	MaxSim   time.Duration
 	Stick    int // percent: keep running the goroutine family picked last
+	NoTick   bool // do not advance the clock by 1 ns per scheduler step (see tick)
 	last     string
 
 	looping  bool
@@ -372,7 +373,16 @@ func (s *Sim) Live() int {
 // Sleep blocks the caller for d of simulated time (durable).
 //
 //go:norace
-func (s *Sim) Sleep(d time.Duration) { s.SleepOr(d, nil) }
+func (s *Sim) Sleep(d time.Duration) {
+	s.SleepOr(d, nil)
+	// Several sleepers may wake at the same simulated instant; in which order the
+	// runtime runs them is not ours to decide (equal timers fire in heap order, and
+	// the heap also holds real-time timers). Actors therefore park once more, so
+	// that the scheduler orders them.
+	if who := s.WhoAmI(); who != "lib" {
+		s.Park("z." + who)
+	}
+}
 
 // SleepOr is Sleep that also ends when cancel is closed, and when the run
 // switches to cleanup mode. (An injected transport delay has to end when the
@@ -456,6 +466,7 @@ func (s *Sim) Loop() {
 	for {
 		raceOff()
 		synctest.Wait()
+		s.tick()
 		raceOn()
 		if s.Quiesce != nil {
 			s.Quiesce()
@@ -567,6 +578,23 @@ func (s *Sim) Loop() {
 		pick.ch <- 0
 		raceOn()
 	}
+}
+
+// tick advances the simulated clock by one nanosecond at every scheduling
+// point, before anything is chosen. testing/synctest fires timers that are due
+// at the same instant in a deliberately random order, which no seed controls;
+// with the tick every scheduler step happens at an instant of its own, so
+// timers started in different steps (two Close calls with their 5 s timeouts,
+// two contexts with the same timeout) never tie. The second Wait lets a timer
+// that was due within this nanosecond run to quiescence before the choice.
+//
+//go:norace
+func (s *Sim) tick() {
+	if s.NoTick {
+		return
+	}
+	time.Sleep(time.Nanosecond)
+	synctest.Wait()
 }
 
 // ParkedIDs lists parked entries (diagnostics).
